@@ -211,6 +211,15 @@ def parse_race_reports(text):
                 sig.append(kind + " harness:" + harness[0])
             else:
                 sig.append(kind + " " + (fr[0][0] if fr else "?"))
+        if not anylib:
+            # neither access is inside the library, but one of the goroutines was started by it (C16: "never race
+            # with the helper goroutines the library starts internally")
+            for cs in re.findall(r"Goroutine \d+ \([^)]*\) created at:\n((?:\s+.*\n)+?)(?:\n|$)", rep):
+                m = re.search(r"(github\.com/varlink/go/[\w./*()\[\]\-·]+)\(\)", cs)
+                if m:
+                    anylib = True
+                    sig.append("started-by " + m.group(1).replace("github.com/varlink/go/", ""))
+                    break
         out.append((tuple(sorted(sig)), anylib, rep[:4000]))
     return out
 
@@ -284,7 +293,7 @@ def check_C16(run):
     run.extra["distinct_race_pairs"] = [list(s) for s in bysig]
     run.extra["repetitions_per_combination"] = reps
     run.write_evidence("model_checking",
-        "combinations = TLC-enumerated set Combos of spec/ServiceRace.tla (every pair/triple of {Shutdown, GetListener, RegisterInterface attempt} and client behaviours {call, cancelled call, abort, upgrade I/O} x phase {starting, bound+starting, serving, draining}; second Bind while serving), each run %d times with seeded random start offsets under the Go race detector; evaluations = executions; distinct_nontrivial = distinct combinations executed" % reps,
+        "combinations = TLC-enumerated set Combos of spec/ServiceRace.tla (every pair/triple of {Shutdown, GetListener, RegisterInterface attempt} and client behaviours {call, cancelled call, abort, upgrade I/O, reuse after cancel, raw I/O cancel, bridge whose child lingers and writes to the caller's stderr buffer around Close} x phase {starting, bound+starting, serving, draining}; second Bind while serving), each run %d times with seeded random start offsets under the Go race detector; evaluations = executions; distinct_nontrivial = distinct combinations executed" % reps,
         exhaustive=False,
         assumptions=["the Go race detector is the judge on the real code (happens-before; only executed pairs are judged)",
                      "TLC decides the model-level NoRace property on per-action access sets transcribed from service.go",
